@@ -30,9 +30,33 @@ for d in sorted(glob.glob(V + '/seeded/C*')):
         caught += ' (after strengthening: %s)' % m['strengthened']
     s.append('| %s: %s | %s | %s | %s | %s |' % (n, clip(m.get('summary', ''), 260).replace('|', '\\|'), re.sub(r'[a-z]$', '', n), clip(m.get('needs_to_manifest', ''), 220).replace('|', '\\|'), caught, clip('; '.join(r.get('signatures', [])[:2]), 200).replace('|', '\\|')))
 seed_md = '\n'.join(s)
+
+# parts table: every monitor (test function) of every check with the head of its rule text
+pt = ['| check | monitor (test function) | file | what it drives and judges (head of the rule text recorded in the evidence) |', '|---|---|---|---|']
+for pf in sorted(glob.glob(V + '/props/C*.json')):
+    pd = json.load(open(pf))
+    pd['id'] = os.path.basename(pf)[:-5]
+    seen = set()
+    for part in pd.get('parts', []):
+        for fn in part.get('files', []):
+            path = V + '/harness/' + fn
+            if path in seen or not os.path.exists(path):
+                continue
+            seen.add(path)
+            src = open(path).read()
+            for m in re.finditer(r'^func (TestVerif_\w+)\(', src, re.M):
+                if pd['id'] not in m.group(1):
+                    continue
+                body = src[m.end():]
+                nxt = re.search(r'^func ', body, re.M)
+                body = body[:nxt.start()] if nxt else body
+                rm = re.search(r'\.Rule\(\s*"((?:[^"\\]|\\.)*)"', body)
+                rule = rm.group(1).replace('\\"', '"') if rm else '(rule text is assembled by a helper; see the rule field of evidence/%s.json)' % pd['id']
+                pt.append('| %s | %s | harness/%s | %s |' % (pd['id'], m.group(1), fn, clip(rule, 330).replace('|', '\\|')))
+parts_md = '\n'.join(pt)
 p = V + '/DESIGN.md'
 t = open(p).read()
-for tag, body in (('findings', find_md), ('seeded', seed_md)):
+for tag, body in (('findings', find_md), ('seeded', seed_md), ('parts', parts_md)):
     a, b = '<!-- GEN:%s -->' % tag, '<!-- /GEN:%s -->' % tag
     if a in t:
         t = t[:t.index(a) + len(a)] + '\n' + body + '\n' + t[t.index(b):]
